@@ -11,6 +11,10 @@ import (
 
 var coll = vkit.NewCollector("C03", "TestPrograms", "generated concurrent programs: 2-8 goroutines x 3-12 operations drawn from the public surface except the configuration setters (publish, subscribe/unsubscribe/clear/clearAll/has/count over three event types of which two share a routing shard, Wait, Shutdown (as a goroutine's last operation), Replay, ReplayWithUpcast, SubscribeWithReplay, RegisterUpcast(Func), ClearUpcasts(ForType), direct Append/Read/ReadStream/SaveOffset/LoadOffset on the memory, SQLite or durable-streams store, Materializer Apply/Replay/LastOffset, collection Get/All, RegisterCollection) on a bus with hooks, panic handler, store and observability; handlers, filters and hooks carry nested scripts (publish, subscribe, unsubscribe, clear, ...) bounded by a fuel counter; barrier start, drawn GOMAXPROCS and Gosched noise; binary built with the race detector. Oracle: the race detector's report file grows while the case runs (kept only if a frame of jilio/ebu is involved), an operation panics, or the program hangs for 60 s twice. Non-trivial = conflicting operation kinds were in flight together (in-flight counters) or a nested call from a handler/filter/hook executed.")
 
+var collStorm = vkit.NewCollector("C03", "TestMaterializerStorm", "2-8 goroutines share one state.Materializer (strict or not, with or without an OnError callback that reads LastOffset) and each repeat a drawn cycle of 1-4 operations 50, 400 or 3000 times: Apply of insert/update/delete/reset messages, Apply of changes the materializer rejects (a value that does not decode into the collection's type, an unregistered entity type, an undefined operation, truncated JSON), LastOffset, collection Get/All, RegisterCollection; barrier start, drawn GOMAXPROCS, race detector on. Oracle: every call returns (60 s watchdog with deadlock evidence from the goroutine dump, or twice), none panics, no race report involving jilio/ebu. Non-trivial = rejected changes and state writers in the same case.")
+
+func TestMaterializerStorm(t *testing.T) { vkit.Check(t, collStorm, GenStorm, RunStorm) }
+
 func TestMain(m *testing.M) { vkit.Main(m) }
 
 func TestPrograms(t *testing.T) {
@@ -27,6 +31,17 @@ func TestPrograms(t *testing.T) {
 func TestReplay(t *testing.T) {
 	r := vkit.NeedReplay(t)
 	// schedule-dependent: try the case repeatedly
+	if vkit.ReplayCase(t, r, collStorm, func(c *StormCase) *vkit.Outcome {
+		var o *vkit.Outcome
+		for i := 0; i < 10; i++ {
+			if o = RunStorm(c); len(o.Viol) > 0 {
+				return o
+			}
+		}
+		return o
+	}) {
+		return
+	}
 	vkit.ReplayCase(t, r, coll, func(c *Case) *vkit.Outcome {
 		var o *vkit.Outcome
 		for i := 0; i < 30; i++ {
